@@ -162,3 +162,7 @@ func ConcreteU64(v uint64) uint64 { return v }
 
 // PoolReuse(true) lets the executor explore sync.Pool.Get returning previously Put objects.
 func PoolReuse(on bool) {}
+
+// ConcreteClock(true) makes the executor's clock stub return fixed increasing instants (the
+// property under check must not depend on the clock).
+func ConcreteClock(on bool) {}
